@@ -3,17 +3,17 @@ import re
 from tools import common as C, wire
 from tools.gen import lines as L
 
-LEAN_MODULES = ["SCP.C17"]
+LEAN_MODULES = ["SCP.C17", "SCP.LexerUi"]
 THEOREMS = ["SCP.C17." + t for t in """mem_charMapFrom nchars_new pos_le_nchars pos_boundary add_wf sort_wf sort_ordered update_inv step_ofLine
-step_wf pipeline_ordered ordered_consecutive old_collision_witness""".split()]
+step_wf pipeline_ordered ordered_consecutive old_collision_witness""".split()] + ["SCP.LexerUi.lexer_highlight_wf"]
 RULE = ("lines of the shared generators (arithmetic, money, percent, dates, durations, times with zones, units, variables over several "
         "lines, comments) with words from a curated alphabet inserted before / between / after tokens: 2-, 3-, 4-byte characters, characters "
         "whose case mapping changes their byte length (İ ß ŉ ǰ ΐ ﬁ ﬃ K Ω), combining marks, RTL currency symbols, blanks other than U+0020 (U+00A0 U+2009 U+3000 U+202F U+2003) glued to numbers / operators / inside comments, Turkish words, in en and tr; "
         "oracle 1 (every line): 0 <= start < end <= number of characters, ordered by start, no overlap; oracle 2 (structured lines whose "
         "pieces are known): every number literal, operator character and comment has a token of its own kind covering exactly its characters; "
-        "tie: the implementation's operation log (hook, target verif_ui) of EVERY collection is replayed on the Lean model: final tokens and "
+        "tie: the highlight requests of the model's tokenizers (from the raw text) equal the adds of the implementation's operation log; the implementation's operation log (hook, target verif_ui) of EVERY collection is replayed on the Lean model: final tokens and "
         "every byte->character translation must agree; non-trivial = line contains a multi-byte character; distinct = distinct texts")
-ASSUMPTIONS = ["which spans the regexes report is outside the model (the theorems hold for arbitrary spans)"]
+ASSUMPTIONS = ["the theorems hold for arbitrary spans; which spans the tokenizers request is given by the lexer model (SC.lexFull), whose requests are compared with the implementation's operation log on every line of this run"]
 TRUSTED = ["the hook log is complete (every mutation of UiTokenCollection goes through add / add_from_byte_range / sort / update_tokens)"]
 
 ALPHA = ["ğüş", "çay", "İİİİ", "ß", "ŉ", "ǰ", "ΐ", "ﬁ", "ﬃ", "K", "Ω", "日本語", "😀", "𝒳y", "é", "é", "ạ̈", "﷼", "₺", "д", "ığdır", "İstanbul",
@@ -211,6 +211,23 @@ def run(ctx, model_ok):
             for ln in wire.split_lines(c["text"])[:3]:
                 lt.append(([], c["lang"], ln))
         wire.lex_tie(ctx, lt)
+    if model_ok and replay:
+        # the highlight requests of the model's own tokenizers against the adds of the implementation's operation log
+        sub = replay if not ctx.quick() else replay[:3000]
+        ans = C.run_model(["reset"] + [f"lexui\t{cases[ci]['lang']}\t{b.hex()}" for (ci, _, b, _, _) in sub])[1:]
+        for (ci, li, b, ops, ui), a in zip(sub, ans):
+            ctx.count("lexui:lines")
+            if not a.startswith("ui"):
+                ctx.count("lexui:outside-model")
+                continue
+            adds = ops.split(";s")[0] if ";s" in ops or ops == "s" else ops
+            adds = "" if adds == "s" else adds
+            got = a[3:] if a.startswith("ui\t") else ""
+            if adds != got:
+                ctx.disagree({"observable": "highlight requests of the tokenizers", "text": cases[ci]["text"], "line": li, "impl": adds, "model": got})
+            else:
+                ctx.count("lexui:agree")
+                ctx.traces_validated += 1
     if model_ok and replay:
         sub = replay if not ctx.quick() else replay[:6000]
         ans = C.run_model([f"ui\t{b.hex()}\t{ops}" for (_, _, b, ops, _) in sub])
